@@ -35,7 +35,8 @@ def tla_cfg(c: Dict[str, Any]) -> Dict[str, Any]:
     return {"start": c["start"], "horizon": c["horizon"], "minute": c["minute"], "second": c["second"], "kicklat": c["kicklat"],
             "kickfail": [list(x) for x in c["kickfail"]],
             "srcs": [{"lat": s["lat"], "pre": s["pre"], "post": s["post"], "removes": s["removes"], "fail": s["fail"], "future": s.get("future", False),
-                      "sched": [{"sid": x["sid"], "kind": x["kind"], "mins": x["mins"], "T": x["T"], "cancel": x["cancel"]} for x in s["sched"]]}
+                      "sched": [{"sid": x["sid"], "kind": x["kind"], "mins": x["mins"], "T": x["T"], "cancel": x["cancel"]} for x in s["sched"]
+                                if not x.get("bad")]}
                      for s in c["srcs"]]}
 
 
@@ -58,7 +59,7 @@ def _once(sid: int, rng: random.Random, start: int, horizon: int) -> Dict[str, A
             "lblsid": rng.random() < 0.15}
 
 
-STARTS = [0, 1, 3, 250, 500, 700, 999, 1000, 1500, 30000, 59000, 59400, 59999]
+STARTS = [0, 1, 3, 250, 500, 700, 999, 1000, 1500, 30000, 59000, 59400, 59999, 60000, 60000, 120000]
 
 
 def gen_random(seed: int, n: int, long_p: float = 0.1) -> List[Dict[str, Any]]:
@@ -87,6 +88,13 @@ def gen_random(seed: int, n: int, long_p: float = 0.1) -> List[Dict[str, Any]]:
                          "future": rng.random() < 0.3,
                          "removes": True, "fail": sorted(rng.sample(range(1, npolls + 1), rng.randint(0, min(2, npolls)))) if rng.random() < 0.4 else [],
                          "sched": sched})
+        if len(out) % 4 == 1:
+            # a schedule with a malformed cron expression, listed BEFORE the others of its source (lowest id): only it is skipped
+            for src in srcs[:1]:
+                if src["sched"]:
+                    low = min(x["sid"] for x in src["sched"])
+                    # ids are listed in ascending order: id 0 comes before every other one
+                    src["sched"].insert(0, {"sid": 0, "kind": "cron", "mins": [1], "cancel": False, "lblsid": False, "bad": True})
         if very_long:
             sid += 1
             srcs[0]["sched"].append({"sid": sid, "kind": "cron", "mins": [rng.randint(0, 59)], "cancel": False, "lblsid": False})   # hourly
@@ -244,6 +252,10 @@ def run_check(prop: str, tier: str, extra: Any = None) -> int:
     for i, scn in enumerate(scns):
         if not str(scn.get("family", "")).startswith("ledger:"):
             scn["cfg"].setdefault("via", ("loop", "api", "cli")[i % 3])
+            scn["cfg"].setdefault("stop_at_end", i % 2 == 1)
+            if scn["cfg"]["via"] == "cli" and scn["cfg"].get("start", 0) % 60000 == 0 and scn["cfg"].get("start", 0) >= 60000:
+                scn["cfg"].setdefault("skipfirst", True)
+                scn["cfg"].setdefault("skipoff", (29600, 500, 59400, 1)[i % 4])
     traces = mbt.drive("engine.sch_check", "_drive_one", scns)
     verdicts = mbt.observe(traces, "ObsSched", shards=8 if q else 16)
     viol_n = 0
